@@ -393,7 +393,7 @@ class SE2(SO2):
 
         :seealso: :func:`spatialmath.base.transforms2d.trexp`, :func:`spatialmath.base.transformsNd.skew`
         """
-        if isinstance(S, (list, tuple)):
+        if isinstance(S, (list, tuple)) and not argcheck.isvector(S, 3):
             return cls([tr.trexp2(s, check=check) for s in S])
         else:
             return cls(tr.trexp2(S, check=check), check=False)
